@@ -19,6 +19,7 @@ double __sym_diff(double h, double var);                 // d h / d var of the r
 int    __sym_is_symbolic(double d);
 void   __sym_note(const char* msg);
 void   __sym_label(const char* msg);                     // appended to the configuration key of this path
+void   __sym_watchdog(double cpu_seconds, const char* msg); // termination claim: this path must finish within the CPU time (0 disarms); otherwise it FAILs
 double __sym_concretize(double d);                       // model value of a term on this path (used only for reporting)
 #ifdef __cplusplus
 }
